@@ -5,6 +5,7 @@ import (
 	"crypto/sha256"
 	"encoding/base64"
 	"fmt"
+	"github.com/jcmturner/gokrb5/v8/keytab"
 	"io"
 	"net/http"
 	"net/http/httptest"
@@ -415,6 +416,61 @@ func c18(c *Ctx) {
 		}
 	}
 	_ = url.Values{}
+	c18KDCBacked(c)
+}
+
+// c18KDCBacked: a client that gets its tickets from a (simulated) KDC: the first call on an SPN runs a TGS exchange,
+// later calls take ticket and session key from the client's cache - every token must be acceptable to a service that
+// holds only its own key.
+func c18KDCBacked(c *Ctx) {
+	realm := "TEST.GOKRB5"
+	for _, et := range []int32{18, 17, 23, 20} {
+		k := kdc.New(realm)
+		k.AddPrincipal([]string{"testuser1"}, "passwordvalue", 2)
+		sp := k.AddPrincipal([]string{"HTTP", "host.test.gokrb5"}, "svcpw", 1)
+		if err := k.Serve(); err != nil {
+			c.Notes = append(c.Notes, "KDC listen (c18): "+err.Error())
+			return
+		}
+		kt := keytab.New()
+		if err := kt.Unmarshal(buildKeytab(c, realm, []string{"HTTP", "host.test.gokrb5"}, sp.Keys, 1)); err != nil {
+			c.Notes = append(c.Notes, "keytab (c18): "+err.Error())
+			k.Close()
+			return
+		}
+		cfg := testConfig(realm, []string{k.Addr}, []int32{et})
+		cl := client.NewWithPassword("testuser1", realm, "passwordvalue", cfg, client.DisablePAFXFAST(true))
+		if err := cl.Login(); err != nil {
+			c.Check(false, "login succeeds against a conformant KDC", "login-fails", err.Error(), map[string]interface{}{"etype": et})
+			k.Close()
+			continue
+		}
+		accepted, refused := 0, ""
+		inner := http.HandlerFunc(func(w http.ResponseWriter, r *http.Request) { w.WriteHeader(200) })
+		srv := httptest.NewServer(spnego.SPNEGOKRB5Authenticate(inner, kt, service.DecodePAC(false)))
+		for call := 0; call < 3; call++ {
+			hc := spnego.NewClient(cl, &http.Client{Timeout: 20 * time.Second}, "HTTP/host.test.gokrb5")
+			req, _ := http.NewRequest("GET", srv.URL+"/", nil)
+			var resp *http.Response
+			var err error
+			p, _ := guard(func() { resp, err = hc.Do(req) })
+			if p || err != nil || resp == nil {
+				refused = fmt.Sprintf("call %d: panic=%v err=%v", call, p, err)
+				break
+			}
+			if resp.StatusCode == 200 {
+				accepted++
+			} else {
+				refused = fmt.Sprintf("call %d: status %d %s", call, resp.StatusCode, resp.Header.Get("WWW-Authenticate"))
+			}
+			resp.Body.Close()
+		}
+		c.Check(accepted == 3, "every call authenticates: tokens built from the client's ticket cache are as acceptable as the first", "cached-ticket-token-refused", refused, map[string]interface{}{"etype": et})
+		c.Count("kdc-backed-client")
+		srv.Close()
+		cl.Destroy()
+		k.Close()
+	}
 }
 
 // apreqLen returns the length of the AP-REQ ([APPLICATION 14]) at the end of a KRB5 mechanism token
